@@ -73,12 +73,13 @@ Proof.
         destruct (O p Hne) as [B1 B2]. split; congruence.
     + destruct (sensor_load_spec s p0 1%R) as (L1 & L2 & O & NS & V).
       destruct (IH c (sensor_load Rnum n s p0 (fone Rnum)) ND') as (s' & E & L1' & L2' & O' & NS' & I' & B'); [exact Hc|].
+      change (fone Rnum) with 1%R in *.
       exists s'. split; [exact E|]. split; [congruence|]. split; [congruence|]. split; [|split; [|split]].
       * intros p Hp. assert (Hne : p <> p0) by (intros ->; apply Hp; simpl; auto).
         destruct (O' p) as [A1 A2]; [tauto|]. destruct (O p Hne) as [B1 B2]. split; congruence.
       * intros p [<-|Hp] Hs.
         -- destruct (O' p0 Hni) as [A1 A2]. rewrite A1, A2.
-           change (sensor_load Rnum n s p0 (fone Rnum)) with (sensor_load Rnum n s p0 1%R). now rewrite (NS Hs).
+           now rewrite (NS Hs).
         -- assert (Hne : p <> p0) by (intros ->; contradiction).
            destruct (NS' p Hp Hs) as [A1 A2]. destruct (O p Hne) as [B1 B2]. split; congruence.
       * intros p [<-|Hp] H1 H2 Hi; [congruence|].
@@ -118,7 +119,7 @@ Qed.
 Lemma filter_filter_input (l : list nat) : filter inputb (filter (sensorb n) l) = filter inputb l.
 Proof.
   induction l as [|p rest IH]; simpl; [reflexivity|].
-  unfold sensorb, inputb in *. destruct (role_at n p); simpl; rewrite ?IH; reflexivity.
+  unfold sensorb, inputb in *. destruct (role_at n p) eqn:E; simpl; rewrite ?E; simpl; rewrite ?IH; reflexivity.
 Qed.
 
 Variable v : nat -> R.
